@@ -500,7 +500,7 @@ func matchOutcome(f *Finding, out *ReplayOutcome) bool {
 		return out.Outcome == "assert:"+f.Assertion
 	case "panic":
 		return strings.HasPrefix(out.Outcome, "panic:")
-	case "deadlock":
+	case "deadlock", "hang":
 		return out.Outcome == "timeout"
 	case "race":
 		// replayed with the Go race detector on the real build: confirmed when it reports a race
